@@ -836,7 +836,7 @@ func checkBudget(c *Ctx) {
 				env := core.NewEnv(c.P, pa)
 				d := env.Term(call.Common().Args[1])
 				s := d.String()
-				ok := strings.Contains(s, ".TracerouteTimeout") && strings.Contains(s, ".SendDelay") && strings.Contains(s, "ProbeCount") && d.Op == "binop" && d.Name == "+"
+				ok := strings.Contains(s, ".TracerouteTimeout") && strings.Contains(s, ".SendDelay") && (strings.Contains(s, "ProbeCount") || strings.Contains(s, ".MaxTTL") && strings.Contains(s, ".MinTTL")) && d.Op == "binop" && d.Name == "+"
 				R.Check(ok, "R02.4", fn+"#budget", call.Pos(), fn, "listening budget = "+s, "listening budget "+s+" does not originate from TracerouteTimeout + SendDelay*ProbeCount()")
 				par := env.Term(call.Common().Args[0])
 				R.Check(par.Op == "param", "R02.4", fn+"#budget-parent", call.Pos(), fn, "timeout context derives from the caller's ctx", "timeout context derives from "+par.String())
